@@ -191,6 +191,19 @@ def run_gp(case):
             if not np.allclose(g, num, rtol=1e-4, atol=1e-6 * (1 + np.abs(num).max())):
                 return bad('C10:posterior:gradient-differs-from-derivative', dict(what, x=x.tolist(), got=g.tolist(),
                                                                                  numeric=num.tolist()))
+        # integer-typed query points are legal inputs: same answers as the float-typed point
+        for xi in ([np.array([1]), np.array([0]), np.array([2])] if dim == 1 else
+                   [np.array([1, 1]), np.array([0, 1]), np.array([2, 1])]):
+            nev += 1
+            xf = xi.astype(float)
+            vi, vf = float(np.ravel(post.logpdf(xi))[0]), float(np.ravel(post.logpdf(xf))[0])
+            gi = np.asarray(post.gradient_logpdf(xi), dtype=float).reshape(-1)
+            gf = np.asarray(post.gradient_logpdf(xf), dtype=float).reshape(-1)
+            if not np.isclose(vi, vf, rtol=1e-12, atol=0):
+                return bad('C10:posterior:integer-typed-point:logpdf', dict(what, x=xi.tolist(), got=vi, as_float=vf))
+            if not np.allclose(gi, gf, rtol=1e-12, atol=0):
+                return bad('C10:posterior:integer-typed-point:gradient-truncated',
+                           dict(what, x=xi.tolist(), got=gi.tolist(), as_float=gf.tolist()))
     # (iii) fast path vs GPy, single points (inside and outside the bounds: the GP is defined everywhere)
     if getattr(gp, '_kernel_is_default', False):
         for x, inside in pts:
